@@ -175,3 +175,51 @@ func C09_Context() {
 	doc := nd.JSON(nd.Spec{Kinds: nd.KFloat | nd.KArray | nd.KObject, Depth: depth, Width: 2, Keys: []string{"a", "b"}})
 	checkAgainstRef("C09/context "+src, src, doc, nil, "C09/null-element-dropped")
 }
+
+var _ = reg("C09_Deep", C09_Deep)
+
+var deepSteps = []string{".a", ".*", "[*]", "[0]", " ? (exists(@.a))", ".size()", ".**{1}"}
+
+// C09_Deep: the splitting law on narrow documents nested four containers
+// deep (array in object in array in object ...), where lax unwrapping of the
+// next step has to be passed along by each step kind.
+func C09_Deep() {
+	strict := nd.Choice(2) == 1
+	mode := ""
+	if strict {
+		mode = "strict "
+	}
+	n := len(deepSteps)
+	if strict {
+		n-- // steps following .** in strict mode are excluded
+	}
+	P := deepSteps[nd.Choice(n)]
+	S := deepSteps[nd.Choice(len(deepSteps)-1)]
+	if nd.Choice(2) == 1 {
+		S += deepSteps[nd.Choice(len(deepSteps)-1)]
+	}
+	if strict && P == ".**{1}" {
+		return
+	}
+	doc := nd.JSON(nd.Spec{Kinds: nd.KFloat | nd.KArray | nd.KObject, Depth: 4, Width: 1, Keys: []string{"a"}})
+	tag := "C09/deep " + mode + "$" + P + " | " + S
+	whole, werr := parse(mode+"$"+P+S).Query(bg, doc)
+	pre, perr := parse(mode+"$"+P).Query(bg, doc)
+	if perr != nil {
+		nd.Assert(errClass(werr) == errClass(perr), tag+"/prefix-fails-but-whole-differs")
+		return
+	}
+	var cat []any
+	for _, x := range pre {
+		r, err := parse(mode+"$"+S).Query(bg, x)
+		if err != nil {
+			nd.Assert(errClass(werr) == errClass(err), tag+"/suffix-fails-but-whole-differs")
+			return
+		}
+		cat = append(cat, r...)
+	}
+	nd.Assert(werr == nil, tag+"/whole-fails-though-parts-succeed")
+	if werr == nil {
+		nd.Assert(sameSeq(whole, cat, false), tag+"/items")
+	}
+}
